@@ -336,7 +336,8 @@ def raw_region():
     """Fallback when the guard cannot be translated: lines of TrajectoryStore.__init__ that mention the owner."""
     import ast
     src = (REPO / 'src/AEIC/trajectories/store.py').read_text()
-    for n in ast.walk(ast.parse(src)):
+    cls = next((c for c in ast.parse(src).body if isinstance(c, ast.ClassDef) and c.name == 'TrajectoryStore'), None)
+    for n in (cls.body if cls is not None else []):
         if isinstance(n, ast.FunctionDef) and n.name == '__init__':
             lines = [m.lineno for s in n.body for m in ast.walk(s)
                      if isinstance(m, ast.Attribute) and m.attr == 'active_in_thread']
@@ -356,7 +357,7 @@ def gen_cases(chk: Check, guard):
     rng = chk.rng
     per_call = 5 if (guard is not None and guard.variant == 'locked') else 3
     if guard is None:
-        per_call = 6
+        per_call = 5          # raw mode (untranslatable guard): physical lines are the steps; only used to find a failing input
     cases = []
     # E1: exhaustive — two threads racing to create their first store, every schedule word
     for w in words(2, 2 * per_call):
